@@ -151,13 +151,13 @@ def scenario_inverse(rng, Ts, d, B):
 def exact_tier(ck, Ts):
     rng = ck.rng
     B = Batch()
-    for g in range(ck.n(5, 24)):
+    for g in range(ck.n(5, 60)):
         d = 3 if g % 2 == 0 else 2
         try:
             scenario_rotation(rng, Ts, d, B, ck.n(4, 6))
         except (ArithmeticError, ValueError, TypeError, IndexError) as e:
             ck.violation("implementation raised %s: %s in rotation" % (type(e).__name__, e), {"dim": d, "group": g}, key="c17-exception-rotate")
-    for g in range(ck.n(24, 150)):
+    for g in range(ck.n(24, 500)):
         d = rng.choice([3, 2])
         try:
             scenario_inverse(rng, Ts, d, B)
@@ -227,7 +227,7 @@ def float_tier(ck, Ts):
     worst = 0.0
     gfm = gf_matrices(ck)
     ck.extra["gfcalc_qptrans_used"] = len(gfm)
-    nrot = ck.n(60, 800)
+    nrot = ck.n(60, 3000)
     for it in range(nrot):
         if it < len(gfm): d, A = gfm[it]; src = "GFcalc.qptrans"
         else:
@@ -267,7 +267,7 @@ def float_tier(ck, Ts):
                               "nl": nl, "p": p.tolist(), "lhs": np.asarray(lhs).tolist(), "rhs": np.asarray(rhs).tolist(),
                               "iteration": it, "seed": ck.seed}, key="c17-float-%s" % label.split(".")[0])
     # inversion: inv(a) * a = 1 through the requested order, order by order
-    ninv = ck.n(60, 800)
+    ninv = ck.n(60, 3000)
     outside = 0
     for it in range(ninv):
         d = rng.choice([3, 2]); T = Ts[d]
